@@ -14,6 +14,7 @@ left alone.
 from .prov import is_call, subterms
 
 OPT = "core::option::Option::<T>::"
+OPT_RES = "core::option::Option::<core::result::Result<T, E>>::"
 RES = "core::result::Result::<T, E>::"
 OPTION = "core::option::Option"
 RESULT = "core::result::Result"
@@ -35,7 +36,25 @@ def err(e):
 
 
 def payload(t, variant):
+    # the payload of a value that says itself which variant it is: `(phi{Some(x) | None} as Some).0` is x
+    if t[0] == "phi":
+        same = [x for x in t[1] if _is_ctor_of(x, variant)]
+        other = [x for x in t[1] if not _is_ctor_of(x, variant) and not _is_other_ctor(x, variant)]
+        if len(same) == 1 and not other and same[0][3]:
+            return same[0][3][0][1]
+    elif _is_ctor_of(t, variant) and t[3]:
+        return t[3][0][1]
+    if variant == "Ok":
+        return ("tryok", t)        # the same value `t?` denotes
     return ("field", ("variant", t, variant), "0")
+
+
+def _is_ctor_of(t, variant):
+    return t[0] == "aggr" and t[1] in (OPTION, RESULT) and t[2] == variant
+
+
+def _is_other_ctor(t, variant):
+    return t[0] == "aggr" and t[1] in (OPTION, RESULT) and t[2] != variant
 
 
 def _ctor(t):
@@ -104,6 +123,13 @@ def _rules():
     def _(prog, var, p, a):
         return NONE if var == "None" else _apply(prog, a[0], [p])
 
+    @opt("transpose")
+    def _(prog, var, p, a):
+        # Option<Result<T, E>> -> Result<Option<T>, E>
+        if var == "None":
+            return ok(NONE)
+        return ("call", RES + "map", (p, ("fn", OPTION + "::Some", OPTION + "::Some")))
+
     @opt("or")
     def _(prog, var, p, a):
         return some(p) if var == "Some" else a[0]
@@ -141,6 +167,7 @@ def _rules():
 
 
 RULES = _rules()
+RULES[OPT_RES + "transpose"] = RULES[OPT + "transpose"]
 VARIANTS = {OPTION: ("Some", "None"), RESULT: ("Ok", "Err")}
 
 
